@@ -1,83 +1,65 @@
 /-
   C20 — Configuration files round-trip and mean the same to dulwich and git.
 
-  Only property theorems, non-vacuity examples and negation witnesses live here; helper lemmas are
-  in Lemmas/Config.lean.  The model is Model/Config.lean; every table and syntax byte it uses comes
-  from Gen/Config.lean, which the translator regenerates from /repo on every run.
+  Only property theorems, non-vacuity examples, regression and negation witnesses live here; helper
+  lemmas are in Lemmas/Config.lean.  The model is Model/Config.lean; every table and syntax byte it
+  uses comes from Gen/Config.lean, which the translator regenerates from /repo on every run.
+
+  The model describes the code after the two repairs 6d569a0 (`_format_string` quotes whatever
+  `strip()` would change and values containing `;` or CR; CR is written raw) and f1ebc7b
+  (`_strip_comments` is escape-aware).  The statements that were provably FALSE before these commits
+  (`valueRoundtripStatement`, `headerRoundtripStatement`, `fileRoundtripStatement`) are now theorems; the
+  old counterexamples are kept as regression theorems (`…_roundtrips`).
 -/
 import DulwichModel.Lemmas.Config
 
 namespace Dulwich.Props.C20
 open Dulwich Dulwich.Config
 
-/-! ## 1. value round trip: `_parse_string(_format_string(v)) == v` -/
+/-! ## 1. value round trip: `_parse_string(_format_string(v)) == v` for EVERY byte string -/
 
-/-- The statement the property makes about values, in full. It is FALSE for the code as it stands
-(`valueRoundtripStatement_false`); the theorem that holds is `value_roundtrip_partial`, under `wfValue`. -/
+/-- The statement the property makes about values, in full (no hypothesis at all: NUL, CR, VT, FF,
+both comment characters, quotes, backslashes, LF, TAB, blanks anywhere). -/
 def valueRoundtripStatement : Prop := ∀ v : Bytes, parseString (formatString v) = .ok v
 
-/-- **Value round trip.** For every value `v` with `wfValue v` — no CR; and, if the writer's rule leaves it
-unquoted (no `#`, no leading/trailing space or tab), no `;` and no VT/FF as first or last byte —
-reading what `_format_string` wrote gives `v` back. -/
-theorem value_roundtrip_partial (v : Bytes) (h : wfValue v = true) :
-    parseString (formatString v) = .ok v := by
+/-- **Value round trip.** Reading what `_format_string` wrote gives the value back, for every value. -/
+theorem value_roundtrip : valueRoundtripStatement := by
+  intro v
   unfold parseString
-  rw [strip_of_edges (edges_format v h), parseLoop_format v h]
+  rw [strip_of_edges (edges_format v), parseLoop_format v]
 
 /-- the same through the text `from_file` actually hands to `_parse_string` for a line
 `\tkey = VALUE\n`: a space, the formatted value, LF -/
-theorem value_roundtrip_in_line_partial (v : Bytes) (h : wfValue v = true) :
+theorem value_roundtrip_in_line (v : Bytes) :
     parseString (32 :: (formatString v ++ [10])) = .ok v := by
   unfold parseString
-  rw [strip_line_of_edges (edges_format v h), parseLoop_format v h]
+  rw [strip_line_of_edges (edges_format v), parseLoop_format v]
 
-/-- non-vacuity: a value using every special character the predicate allows, quoted -/
-example : wfValue [32, 9, 34, 92, 35, 59, 10, 110, 116, 98, 11, 12, 8, 32] = true := by decide
-/-- … and one left unquoted -/
-example : wfValue [97, 32, 9, 34, 92, 10, 11, 12, 8, 98] = true := by decide
-example : parseString (formatString [32, 9, 34, 92, 35, 59, 10, 110, 116, 98, 11, 12, 8, 32])
-    = .ok [32, 9, 34, 92, 35, 59, 10, 110, 116, 98, 11, 12, 8, 32] := by decide
+/-! ### regression: the witnesses that refuted the statement before 6d569a0 -/
 
-/-! ### the excluded classes are real: each is a counterexample to the full statement (§7-F20) -/
+/-- `a;b` is now written `"a;b"` -/
+theorem semicolon_roundtrips :
+    formatString [97, 59, 98] = [34, 97, 59, 98, 34] ∧ parseString (formatString [97, 59, 98]) = .ok [97, 59, 98] := by
+  decide
 
-/-- `a;b` is written unquoted and read back as `a` -/
-theorem semicolon_counterexample :
-    formatString [97, 59, 98] = [97, 59, 98] ∧ parseString (formatString [97, 59, 98]) = .ok [97] := by decide
+/-- `a<CR>b` is now written `"a<CR>b"` (raw CR inside quotes, as git writes it) -/
+theorem cr_roundtrips :
+    formatString [97, 13, 98] = [34, 97, 13, 98, 34] ∧ parseString (formatString [97, 13, 98]) = .ok [97, 13, 98] := by
+  decide
 
-/-- `a<CR>b` is written `a\rb`; the reader has no `r` escape and returns the five bytes `a \ r b` -/
-theorem cr_counterexample :
-    formatString [97, 13, 98] = [97, 92, 114, 98] ∧
-    parseString (formatString [97, 13, 98]) = .ok [97, 92, 114, 98] := by decide
+theorem cr_edges_roundtrip : parseString (formatString [13, 32, 13]) = .ok [13, 32, 13] := by decide
 
-/-- CR is not saved by quoting either -/
-theorem cr_quoted_counterexample :
-    parseString (formatString [32, 13]) = .ok [32, 92, 114] := by decide
+/-- a leading VT is now protected by quotes -/
+theorem leading_vt_roundtrips :
+    formatString [11, 97] = [34, 11, 97, 34] ∧ parseString (formatString [11, 97]) = .ok [11, 97] := by decide
 
-/-- a leading VT is written raw and removed by `strip()` -/
-theorem leading_vt_counterexample : parseString (formatString [11, 97]) = .ok [97] := by decide
+/-- a trailing FF is now protected by quotes -/
+theorem trailing_ff_roundtrips : parseString (formatString [97, 12]) = .ok [97, 12] := by decide
 
-/-- a trailing FF is written raw and removed by `strip()` -/
-theorem trailing_ff_counterexample : parseString (formatString [97, 12]) = .ok [97] := by decide
-
-/-- all byte strings of length `n` over `alpha` -/
-def stringsOfLen (alpha : Bytes) : Nat → List Bytes
-  | 0 => [[]]
-  | n + 1 => (stringsOfLen alpha n).flatMap (fun s => alpha.map (fun c => c :: s))
-
-/-- `wfValue` is exact, not merely sufficient, on every value of length ≤ 3 over the property's
-11-symbol alphabet plus VT and FF (2380 values, evaluated by the kernel): a value round-trips
-**iff** it satisfies the predicate.  (The harness checks the same equivalence against the real code on
-all values up to length 4/5 and on random longer ones in every run.) -/
-theorem wfValue_exact_small :
-    ((List.range 4).flatMap (stringsOfLen [32, 9, 34, 92, 35, 59, 10, 13, 110, 116, 98, 11, 12])).all
-      (fun v => wfValue v == decide (parseString (formatString v) = .ok v)) = true := by
-  decide +kernel
-
-theorem valueRoundtripStatement_false : ¬ valueRoundtripStatement := by
-  intro h
-  have := h [97, 59, 98]
-  rw [semicolon_counterexample.2] at this
-  exact absurd this (by decide)
+/-- values that need no quotes are still written bare -/
+example : formatString [97, 32, 34, 92, 9, 10, 11, 98] = [97, 32, 92, 34, 92, 92, 92, 116, 92, 110, 11, 98] := by decide
+example : parseString (formatString [0, 32, 9, 34, 92, 35, 59, 10, 13, 110, 116, 98, 11, 12, 8, 255, 32])
+    = .ok [0, 32, 9, 34, 92, 35, 59, 10, 13, 110, 116, 98, 11, 12, 8, 255, 32] := by decide
 
 /-! ## 2. subsections and section headers -/
 
@@ -87,7 +69,7 @@ theorem subsection_roundtrip (s e : Bytes) (h : escapeSubsection s = .ok e) : un
   obtain ⟨he, _, _⟩ := escapeSubsection_ok h
   rw [he, unescape_escaped]
 
-/-- the writer refuses exactly LF and NUL -/
+/-- the writer refuses exactly LF and NUL (git forbids both in a subsection) -/
 theorem escapeSubsection_total (s : Bytes) (h10 : ¬ 10 ∈ s) (h0 : ¬ 0 ∈ s) : ∃ e, escapeSubsection s = .ok e := by
   unfold escapeSubsection
   split
@@ -100,65 +82,129 @@ theorem escapeSubsection_total (s : Bytes) (h10 : ¬ 10 ∈ s) (h0 : ¬ 0 ∈ s)
     · exact (h0 hc).elim
   · exact ⟨_, rfl⟩
 
+/-- still excluded, by design: a subsection containing LF is refused by the writer (ValueError) -/
+theorem subsection_lf_refused : escapeSubsection [97, 10] = .error .format ∧ escapeSubsection [0] = .error .format := by
+  decide
+
 example : escapeSubsection [97, 34, 92, 46, 32, 93, 35, 59, 34] = .ok [97, 92, 34, 92, 92, 46, 32, 93, 35, 59, 92, 34] := by
   decide
 
-/-- The statement the property makes about section headers, in full: whatever header the writer emits
-is read back as the same section.  FALSE for the code as it stands (`header_counterexample`). -/
+/-- The statement the property makes about section headers, in full: for every section name in the
+reader's grammar (`isalnum`/`-`/`.`; no `.` when there is no subsection) and EVERY subsection,
+whatever header the writer emits is read back as the same section, with nothing left on the line. -/
 def headerRoundtripStatement : Prop :=
   ∀ (sec : Section) (hdr : Bytes), checkSectionName sec.1 = true → (sec.2 = none → ¬ 46 ∈ sec.1) →
     writeHeader sec = .ok hdr → parseHeader hdr = .ok (sec, [])
 
-/-- **Header round trip.** For every section name over `isalnum`/`-`/`.` (no `.` without a subsection) and
-every subsection without LF/NUL in which no `#`/`;` follows an odd number of `"` (`wfSubsection`), the
-header line `write_to_file` emits is parsed back to the same `(name[, subsection])` with nothing left
-on the line: `_strip_comments` leaves it alone, the scan finds the final `]`, the split finds the name,
-and unescaping inverts escaping. -/
-theorem header_roundtrip_partial (sec : Section) (hdr : Bytes) (h : wfSection sec = true)
-    (hw : writeHeader sec = .ok hdr) : parseHeader hdr = .ok (sec, []) :=
-  parseHeader_written sec hdr h hw
+/-- **Header round trip**: the (escape-aware) `_strip_comments` leaves the written line alone, the scan
+finds the final `]`, the split finds the name, and unescaping inverts escaping. -/
+theorem header_roundtrip : headerRoundtripStatement := by
+  intro sec hdr hn hdot hw
+  apply parseHeader_written sec hdr _ hw
+  obtain ⟨name, sub⟩ := sec
+  cases sub with
+  | none =>
+    have : ¬ 46 ∈ name := hdot rfl
+    simp only [wfSection, Bool.and_eq_true, Bool.not_eq_true']
+    exact ⟨hn, by simpa [Gen.Config.hdrDot] using this⟩
+  | some sub =>
+    simp only [writeHeader] at hw
+    split at hw
+    · cases hw
+    · rename_i esc hesc
+      obtain ⟨_, h10, h0⟩ := escapeSubsection_ok hesc
+      simp only [wfSection, wfSubsection, Bool.and_eq_true, Bool.not_eq_true']
+      refine ⟨hn, ?_⟩
+      rw [List.any_eq_false]
+      intro c hc
+      simp only [Gen.Config.subsectionForbidden, List.contains_cons, List.contains_nil, Bool.or_false,
+        Bool.or_eq_true, beq_iff_eq, not_or]
+      exact ⟨fun e => h10 (e ▸ hc), fun e => h0 (e ▸ hc)⟩
 
-example : wfSection ([114, 101, 109, 111, 116, 101], some [97, 35, 59, 34, 92, 46, 32, 93, 34, 35]) = true := by decide
-
-/-- `(s, a"#b)` is written as `[s "a\"#b"]` and cannot be read back: `_strip_comments` is blind to the
-backslash, sees the string end at the escaped quote and cuts the line at `#`. -/
-theorem header_counterexample :
+/-- regression: the witness that refuted the statement before f1ebc7b — `(s, a"#b)` is written
+`[s "a\"#b"]` and now read back -/
+theorem quote_hash_subsection_roundtrips :
     writeHeader ([115], some [97, 34, 35, 98]) = .ok [91, 115, 32, 34, 97, 92, 34, 35, 98, 34, 93, 10] ∧
-    parseHeader [91, 115, 32, 34, 97, 92, 34, 35, 98, 34, 93, 10] = .error .format := by decide
+    parseHeader [91, 115, 32, 34, 97, 92, 34, 35, 98, 34, 93, 10] = .ok (([115], some [97, 34, 35, 98]), []) := by
+  decide
 
-theorem headerRoundtripStatement_false : ¬ headerRoundtripStatement := by
-  intro h
-  have := h ([115], some [97, 34, 35, 98]) _ (by decide) (by intro h; cases h) header_counterexample.1
-  rw [header_counterexample.2] at this
-  cases this
-
-/-- `[a.b]` is the legacy spelling of section `a`, subsection `b` (git reads it the same way), so a
-one-element section key containing `.` does not come back as such -/
+/-- still excluded: `[a.b]` is the legacy spelling of section `a`, subsection `b` (git reads it the same
+way), so a one-element section key containing `.` does not come back as such -/
 theorem dotted_section_reads_as_subsection :
     parseHeader [91, 97, 46, 98, 93, 10] = .ok (([97], some [98]), []) := by decide
 
 /-! ## 3. whole files: `ConfigFile.from_file(write_to_file(cfg)) == cfg` -/
 
-/-- The statement the property makes about whole configurations, in full (every configuration whose
-names are in the reader's grammar and whose sections are distinct).  FALSE for the code as it stands:
-`valueRoundtripStatement_false` and `headerRoundtripStatement_false` are instances. -/
+/-- names in the reader's grammar: what `wfCfg` asks besides distinct sections -/
+def namesOk (cfg : Cfg) : Bool :=
+  cfg.all fun e => checkSectionName e.1.1 && (e.1.2.isSome || !e.1.1.contains 46) && e.2.all fun kv => wfKey kv.1
+
+/-- The statement the property makes about whole configurations, in full: every configuration — an
+ordered list of sections, each with an ordered list of `(key, value)` entries, repeated keys allowed,
+ANY values, ANY subsections — whose names are in the reader's grammar and whose sections are
+pairwise different under `lower_key` (what `ConfigDict.set/add` maintain): whenever `write_to_file`
+succeeds, `from_file` on its output returns exactly the same ordered structure. -/
 def fileRoundtripStatement : Prop :=
-  ∀ cfg : Cfg, (cfg.all fun e => checkSectionName e.1.1 && e.2.all fun kv => wfKey kv.1) = true →
-    distinctSections cfg = true → ∀ data, writeFile cfg = .ok data → readFile data = .ok cfg
+  ∀ cfg : Cfg, namesOk cfg = true → distinctSections cfg = true →
+    ∀ data, writeFile cfg = .ok data → readFile data = .ok cfg
 
-/-- `[s] k = a;b` comes back as `k = a` -/
-theorem file_counterexample :
-    writeFile [(([115], none), [([107], [97, 59, 98])])] = .ok [91, 115, 93, 10, 9, 107, 32, 61, 32, 97, 59, 98, 10] ∧
-    readFile [91, 115, 93, 10, 9, 107, 32, 61, 32, 97, 59, 98, 10] = .ok [(([115], none), [([107], [97])])] := by
-  decide
+/-- `write_to_file` raises only for a subsection with LF/NUL -/
+theorem writeFile_ok_subsections (cfg : Cfg) (data : Bytes) (hw : writeFile cfg = .ok data) :
+    ∀ e ∈ cfg, ∀ sub, e.1.2 = some sub → wfSubsection sub = true := by
+  induction cfg generalizing data with
+  | nil => intro e he; cases he
+  | cons sd cfg ih =>
+    obtain ⟨⟨name, sub0⟩, d⟩ := sd
+    simp only [writeFile] at hw
+    split at hw
+    · cases hw
+    · rename_i h hh
+      split at hw
+      · cases hw
+      · rename_i r hr
+        intro e he sub hsub
+        rcases List.mem_cons.mp he with rfl | he
+        · simp only at hsub
+          subst hsub
+          simp only [writeHeader] at hh
+          split at hh
+          · cases hh
+          · rename_i esc hesc
+            unfold escapeSubsection at hesc
+            split at hesc
+            · cases hesc
+            · rename_i hf
+              simpa [wfSubsection] using hf
+        · exact ih r hr e he sub hsub
 
-theorem fileRoundtripStatement_false : ¬ fileRoundtripStatement := by
-  intro h
-  have := h [(([115], none), [([107], [97, 59, 98])])] (by decide) (by decide) _ file_counterexample.1
-  rw [file_counterexample.2] at this
-  exact absurd this (by decide)
+/-- **Whole-file round trip**: same sections in the same order with their original spelling, same
+keys, same values, every multi-valued key with all its values in their original order. -/
+theorem file_roundtrip : fileRoundtripStatement := by
+  intro cfg hn hd data hw
+  have hsubs := writeFile_ok_subsections cfg data hw
+  simp only [namesOk, List.all_eq_true, Bool.and_eq_true, Bool.or_eq_true, Bool.not_eq_true'] at hn
+  obtain ⟨s1, hs1⟩ := readLines_file cfg [] none true data hw
+    (by
+      intro e he
+      obtain ⟨⟨hname, hdot⟩, hkeys⟩ := hn e he
+      refine ⟨?_, ?_⟩
+      · obtain ⟨⟨name, sub⟩, d⟩ := e
+        cases sub with
+        | none =>
+          simp only [wfSection, Bool.and_eq_true, Bool.not_eq_true']
+          refine ⟨hname, ?_⟩
+          simpa [Gen.Config.hdrDot] using hdot
+        | some sub =>
+          simp only [wfSection, Bool.and_eq_true]
+          exact ⟨hname, hsubs _ he sub rfl⟩
+      · simp only [wfEntries, List.all_eq_true]
+        exact hkeys)
+    hd (fun e he => by cases he)
+  unfold readFile
+  rw [hs1]
+  simp
 
-/-- under `wfCfg` the writer does not raise -/
+/-- under `wfCfg` (names as above, subsections without LF/NUL) the writer does not raise -/
 theorem writeFile_total (cfg : Cfg) (h : wfCfg cfg = true) : ∃ data, writeFile cfg = .ok data := by
   simp only [wfCfg, Bool.and_eq_true, List.all_eq_true] at h
   have hs := h.1
@@ -175,35 +221,25 @@ theorem writeFile_total (cfg : Cfg) (h : wfCfg cfg = true) : ∃ data, writeFile
       | some sub =>
         simp only [wfSection, wfSubsection, Bool.and_eq_true, Bool.not_eq_true'] at hsec
         have : escapeSubsection sub = .ok (applyWrites Gen.Config.subsectionWrites sub) := by
-          unfold escapeSubsection; rw [hsec.2.1]; rfl
+          unfold escapeSubsection; rw [hsec.2]; rfl
         exact ⟨_, by simp only [writeHeader, this]; rfl⟩
     obtain ⟨hd, hhd⟩ := hh
     exact ⟨hd ++ writeEntries d ++ r, by simp only [writeFile, hhd, hr]⟩
 
-/-- **Whole-file round trip.** For every configuration `cfg` — an ordered list of sections, each with an
-ordered list of `(key, value)` entries, repeated keys allowed — such that `wfCfg cfg`:
-section names over `isalnum`/`-`/`.` (no `.` without subsection), subsections `wfSubsection`, keys
-non-empty over `isalnum`/`-`, values `wfValue`, sections pairwise different under `lower_key`
-(what `ConfigDict.set/add` maintain): `write_to_file` succeeds and `from_file` on its output returns
-exactly `cfg` — same sections in the same order with their original spelling, same keys, same values,
-every multi-valued key with all its values in their original order. -/
-theorem file_roundtrip_partial (cfg : Cfg) (h : wfCfg cfg = true) :
-    ∃ data, writeFile cfg = .ok data ∧ readFile data = .ok cfg := by
-  obtain ⟨data, hw⟩ := writeFile_total cfg h
-  refine ⟨data, hw, ?_⟩
-  simp only [wfCfg, Bool.and_eq_true, List.all_eq_true] at h
-  obtain ⟨s1, hs1⟩ := readLines_file cfg [] none true data hw (fun e he => h.1 e he) h.2
-    (fun e he => by cases he)
-  unfold readFile
-  rw [hs1]
-  simp
-
 /-- non-vacuity: two sections differing only in subsection case, a multi-valued key in three spellings,
-values with every special character -/
-example : wfCfg [(([82, 101], some [97, 32, 34, 92, 46, 93]),
-                    [([85, 114, 108], [32, 9, 34, 92, 35, 59, 10]), ([117, 114, 108], []), ([85, 82, 76], [97, 34, 98])]),
-                 (([114, 101], some [65, 32, 34, 92, 46, 93]), [([107], [35])]),
+a subsection that used to be unreadable, values from every formerly failing class -/
+example : wfCfg [(([82, 101], some [97, 34, 35, 98]),
+                    [([85, 114, 108], [97, 59, 98]), ([117, 114, 108], [13]), ([85, 82, 76], [11, 97, 12])]),
+                 (([114, 101], some [65, 34, 35, 98]), [([107], [35])]),
                  (([99, 111, 114, 101], none), [])] = true := by decide
+
+/-- regression: `[s] k = a;b` (read back as `k = a` before 6d569a0) -/
+theorem file_semicolon_roundtrips :
+    writeFile [(([115], none), [([107], [97, 59, 98])])]
+      = .ok [91, 115, 93, 10, 9, 107, 32, 61, 32, 34, 97, 59, 98, 34, 10] ∧
+    readFile [91, 115, 93, 10, 9, 107, 32, 61, 32, 34, 97, 59, 98, 34, 10]
+      = .ok [(([115], none), [([107], [97, 59, 98])])] := by
+  decide
 
 /-! ## 4. the multi-valued dictionary: `set`/`add`/`remove` refine the association-list spec -/
 
@@ -260,7 +296,7 @@ theorem getAll_del (d d' : Entries) (k k' : Bytes) (h : entDel d k = .ok d') :
   · cases h
 
 /-- `ConfigDict.set`, `add` and `remove` keep the sections pairwise distinct under `lower_key`, so every
-configuration built through them from the empty one satisfies that hypothesis of `file_roundtrip_partial` -/
+configuration built through them from the empty one satisfies that hypothesis of `file_roundtrip` -/
 theorem set_keeps_sections_distinct (cfg : Cfg) (sec : Section) (k v : Bytes) (h : distinctSections cfg = true) :
     distinctSections (cfgSet cfg sec k v) = true :=
   distinct_modify _ _ _ (distinct_setDefault cfg sec h)
